@@ -177,6 +177,29 @@ def prop_programs(case, r):
             r.check(np.shares_memory(np.asarray(view), np.asarray(names[var])), 'component-not-a-view', f'{comps[ci % len(comps)]} does not share the parent buffer')
             view[...] = value
             shadows[var][ci % len(comps)][...] = value
+        elif kind == 'slicecomp':
+            _, var, how, ci, value = st_
+            if not comps or names[var].ndim < 2:
+                continue
+            x = names[var]
+            if how == 'stride':
+                sub, ssub = x[:, ::2], shadows[var][:, ::2]
+            elif how == 'tail':
+                sub, ssub = x[:, 1:], shadows[var][:, 1:]
+            elif how == 'reverse':
+                sub, ssub = x[:, ::-1], shadows[var][:, ::-1]
+            else:
+                if x.ndim < 3:
+                    continue
+                sub, ssub = x[:, :, 0], shadows[var][:, :, 0]
+            if sub.shape[0] != len(comps) or sub.size == 0:
+                continue
+            inplace = True
+            r.check(type(sub) is cls, 'slice-type', f'slicing {cls.__name__} gives {type(sub).__name__}')
+            view = getattr(sub, comps[ci % len(comps)])
+            r.check(np.shares_memory(np.asarray(view), np.asarray(x)), 'component-not-a-view', f'{comps[ci % len(comps)]} of a {how} slice does not share the parent buffer')
+            view[...] = value
+            ssub[ci % len(comps)][...] = value  # numpy view semantics: written through to the parent shadow
         elif kind == 'ufunc':
             _, dst, name, src = st_
             names[dst] = UFUNCS[name](names[src])
@@ -214,7 +237,7 @@ def program_cases(draw):
 
     prog = []
     for _ in range(draw(st.integers(1, 8))):
-        kind = draw(st.sampled_from(['bin', 'bin', 'aug', 'aug', 'alias', 'copy', 'neg', 'abs', 'setitem', 'setrow', 'compwrite', 'ufunc', 'reduce']))
+        kind = draw(st.sampled_from(['bin', 'bin', 'aug', 'aug', 'alias', 'copy', 'neg', 'abs', 'setitem', 'setrow', 'compwrite', 'slicecomp', 'ufunc', 'reduce']))
         if kind == 'bin':
             prog.append(['bin', draw(st.integers(0, 3)), draw(st.sampled_from('+-*')), opnd(), opnd()])
         elif kind == 'aug':
@@ -227,6 +250,8 @@ def program_cases(draw):
             prog.append([kind, draw(st.integers(0, 3)), draw(S.small_float(-2, 2))])
         elif kind == 'compwrite':
             prog.append(['compwrite', draw(st.integers(0, 3)), draw(st.integers(0, 1)), draw(S.small_float(-2, 2))])
+        elif kind == 'slicecomp':
+            prog.append(['slicecomp', draw(st.integers(0, 3)), draw(st.sampled_from(['stride', 'tail', 'reverse', 'plane'])), draw(st.integers(0, 1)), draw(S.small_float(-2, 2))])
         else:
             prog.append(['ufunc', draw(st.integers(0, 3)), draw(st.sampled_from(sorted(UFUNCS))), draw(st.integers(0, 3))])
     return {'type': tname, 'shape': shape, 'dtype': dtype, 'init': init, 'program': prog}
@@ -318,6 +343,27 @@ class Keeper(Hooks):
             type(self).copies.append(('iter', L.time + L.dt, step.status.iter, np.array(L.uend, copy=True), L.uend))
 
 
+class Poke(Hooks):
+    """in-place write into node 0 of a running step at a chosen (time, iteration), like the shipped FaultInjector hook"""
+
+    where = None  # (step index in run, iteration)
+    count = 0
+
+    def pre_step(self, step, level_number):
+        super().pre_step(step, level_number)
+        type(self).count += 1
+        step.levels[0].status.__dict__.setdefault('_poke_idx', None)
+        self._idx = getattr(self, '_idx', {})
+        self._idx[step.status.slot] = type(self).count
+
+    def pre_iteration(self, step, level_number):
+        super().pre_iteration(step, level_number)
+        w = type(self).where
+        if w is not None and self._idx.get(step.status.slot) == w[0] and step.status.iter == w[1]:
+            L = step.levels[0]
+            L.u[0][...] = np.asarray(L.u[0]) + 0.5
+
+
 RK = {n: c for n, c in vars(RKmod).items() if isinstance(c, type) and issubclass(c, RKmod.RungeKutta) and c.matrix is not None}
 
 
@@ -327,6 +373,10 @@ def prop_runs(case, r):
     A = np.array(S.shape_matrix(case['B'], 'stable'))
     A2 = 0.3 * np.array(S.shape_matrix(case['B2'], 'rot'))
     hooks = [LogSolution, LogSolutionAfterIteration, Keeper] if case['log_iter'] else [LogSolution, Keeper]
+    if case.get('poke'):
+        hooks = hooks + [Poke]
+    Poke.where = tuple(case['poke']) if case.get('poke') else None
+    Poke.count = 0
     level_params = {'dt': case['dt'], 'restol': -1.0}
     sp = {'num_nodes': case['num_nodes'], 'quad_type': case['quad_type'], 'do_coll_update': case['coll_update']}
     step_params = {'maxiter': case['maxiter']}
@@ -402,6 +452,7 @@ def run_cases(draw):
         'sweeper': sw, 'n': n, 'B': draw(S.mat(n)), 'B2': draw(S.mat(n)), 'g': draw(S.forcing(n)), 'u0': draw(S.vec(n)), 'dt': draw(st.sampled_from([0.05, 0.1, 0.2])),
         'num_nodes': ns['num_nodes'], 'quad_type': ns['quad_type'], 'coll_update': draw(st.booleans()), 'QI': draw(st.sampled_from(['IE', 'LU', 'MIN-SR-S'])),
         'maxiter': draw(st.integers(1, 3)), 'num_procs': draw(st.integers(1, 3)), 'nblocks': draw(st.integers(1, 3)), 'jac': draw(st.booleans()), 'log_iter': draw(st.booleans()),
+        'poke': [draw(st.integers(1, 6)), 1] if draw(st.booleans()) else None,
     }  # fmt: skip
 
 
